@@ -715,6 +715,27 @@ func renderConcrete(j *jval) (string, bool) {
 		}
 		b, _ := json.Marshal(s)
 		return string(b), true
+	case jArr:
+		parts := []string{}
+		for _, it := range j.items {
+			p, ok := renderConcrete(it)
+			if !ok {
+				return "", false
+			}
+			parts = append(parts, p)
+		}
+		return "[" + strings.Join(parts, ",") + "]", true
+	case jObj:
+		parts := []string{}
+		for i, it := range j.items {
+			p, ok := renderConcrete(it)
+			if !ok {
+				return "", false
+			}
+			k, _ := json.Marshal(j.keys[i])
+			parts = append(parts, string(k)+":"+p)
+		}
+		return "{" + strings.Join(parts, ",") + "}", true
 	}
 	return "", false
 }
